@@ -72,6 +72,9 @@ func (tr *Trace) Timeline(from, to time.Duration, withLogs bool) string {
 	for _, w := range tr.WatchEvs {
 		add(w.Seq, w.T, "WATCH %s#%d w%d ev marker=%v rev=%d del=%v dropped=%v", tr.Plan.Instances[w.Inst].ID, w.Obj, w.WatchID, w.Ev.Marker, w.Ev.Rev, w.Ev.Delete, w.Dropped)
 	}
+	for _, w := range tr.WatchCloses {
+		add(w.Seq, w.T, "WATCH %s#%d w%d channel closed by the store side", tr.Plan.Instances[w.Inst].ID, w.Obj, w.WatchID)
+	}
 	if withLogs {
 		for _, l := range tr.Logs {
 			var fs []string
